@@ -193,6 +193,16 @@ func ruleRelocationComplete(c *Ctx, rule string) {
 		ob := r.Ob(rule, "bytecode."+pf.T.Obj().Name()+".adjust:field "+pf.Name, "")
 		fn := adj[pf.T.Obj().Name()]
 		if fn == nil {
+			// one function that relocates every instruction type in a type switch (relocate(inst, delta))
+			if verdict, detail, ok := c.relocatedBySwitch(pf); ok {
+				ob.Construct = "bytecode." + pf.T.Obj().Name() + " relocation:field " + pf.Name
+				if verdict {
+					ob.OKnt(detail)
+				} else {
+					ob.Bad(fmt.Sprintf("%s.%s receives program counters in %s but relocation leaves it unshifted: %s", pf.T.Obj().Name(), pf.Name, strings.Join(uniq(pf.Where), ", "), detail))
+				}
+				continue
+			}
 			ob.Und("no adjust method found for " + pf.T.Obj().Name())
 			continue
 		}
@@ -357,4 +367,116 @@ func ruleRelocationScope(c *Ctx, rule string) {
 		})
 	}
 	r.Floor(rule, "call sites of SearchInstruction.adjust", n, 1)
+}
+
+// relocatedBySwitch decides the relocation obligation of one pc-carrying field when the instruction types have no adjust methods
+// but one function of the package relocates them in a type switch: func(SearchInstruction, int) SearchInstruction. In the arm
+// that has asserted the field's type, the returned instruction's field must depend on both the asserted value's field and the
+// int parameter; when there is no arm for the type the function hands the instruction back unchanged and the field stays
+// unshifted. ok=false: no such function.
+func (c *Ctx) relocatedBySwitch(pf *pcField) (verdict bool, detail string, ok bool) {
+	iface := c.NamedType("bytecode", "SearchInstruction")
+	if iface == nil {
+		return false, "", false
+	}
+	for _, fn := range c.SrcFuncs("bytecode") {
+		if fn.Signature.Recv() != nil || fn.Signature.Results().Len() != 1 || !types.Identical(fn.Signature.Results().At(0).Type(), iface) {
+			continue
+		}
+		var instP, offP *ssa.Parameter
+		for _, p := range fn.Params {
+			if types.Identical(p.Type(), iface) {
+				instP = p
+			}
+			if b, isB := p.Type().(*types.Basic); isB && b.Kind() == types.Int {
+				offP = p
+			}
+		}
+		if instP == nil || offP == nil {
+			continue
+		}
+		// the values of the field's type obtained by asserting the parameter
+		var asserted []ssa.Value
+		nassert := 0
+		instrsOf(fn, func(in ssa.Instruction) {
+			ta, isTA := in.(*ssa.TypeAssert)
+			if !isTA || ta.X != ssa.Value(instP) {
+				return
+			}
+			nassert++
+			if !types.Identical(ta.AssertedType, pf.T) {
+				return
+			}
+			if !ta.CommaOk {
+				asserted = append(asserted, ta)
+				return
+			}
+			for _, ref := range *ta.Referrers() {
+				if ex, isEx := ref.(*ssa.Extract); isEx && ex.Index == 0 {
+					asserted = append(asserted, ex)
+				}
+			}
+		})
+		if nassert < 3 {
+			continue // not a relocating switch
+		}
+		if len(asserted) == 0 {
+			return false, fmt.Sprintf("%s has no arm for %s: such an instruction is handed back as it is", fnName(fn), pf.T.Obj().Name()), true
+		}
+		const OFF Label = 1
+		isAsserted := map[ssa.Value]bool{}
+		for _, a := range asserted {
+			isAsserted[a] = true
+		}
+		t := NewTaint(fn, func(v ssa.Value) Label {
+			if v == ssa.Value(offP) {
+				return OFF
+			}
+			return 0
+		})
+		t.fieldSrc = func(v ssa.Value, k int) (Label, bool) {
+			if isAsserted[v] {
+				return Label(1) << uint(k+1), true
+			}
+			return 0, false
+		}
+		t.Run()
+		nret := 0
+		var bad []string
+		instrsOf(fn, func(in ssa.Instruction) {
+			ret, isRet := in.(*ssa.Return)
+			if !isRet || len(ret.Results) != 1 {
+				return
+			}
+			res := ret.Results[0]
+			mi, isMI := res.(*ssa.MakeInterface)
+			if !isMI || !types.Identical(mi.X.Type(), pf.T) {
+				return
+			}
+			nret++
+			l := t.FieldLabel(mi.X, pf.Field)
+			if isRefType(pf.T.Underlying().(*types.Struct).Field(pf.Field).Type()) {
+				if u, isU := mi.X.(*ssa.UnOp); isU {
+					if a, isA := u.X.(*ssa.Alloc); isA {
+						l |= t.loc[locKey{a, pf.Field}]
+					}
+				}
+			}
+			if l&OFF == 0 {
+				bad = append(bad, fmt.Sprintf("field %s of the returned instruction does not depend on the offset parameter [%s]", pf.Name, c.pos(ret.Pos())))
+			}
+			if l&(Label(1)<<uint(pf.Field+1)) == 0 {
+				bad = append(bad, fmt.Sprintf("field %s of the returned instruction does not depend on the instruction's own %s [%s]", pf.Name, pf.Name, c.pos(ret.Pos())))
+			}
+		})
+		switch {
+		case nret == 0:
+			return false, fmt.Sprintf("the arm of %s for %s returns no %s", fnName(fn), pf.T.Obj().Name(), pf.T.Obj().Name()), true
+		case len(bad) > 0:
+			return false, strings.Join(uniq(bad), "; "), true
+		default:
+			return true, fmt.Sprintf("field is pc-carrying (set in %s); in the arm of %s for %s the returned field depends on both the instruction's field and the offset", strings.Join(uniq(pf.Where), ", "), fnName(fn), pf.T.Obj().Name()), true
+		}
+	}
+	return false, "", false
 }
